@@ -601,6 +601,45 @@ def c12e(ctx, tu, la):
     return n
 
 
+def c12g(ctx, tu, la):
+    """Must-pass-through: an operation on an object that other threads reach through shared state
+    acquires the lock on EVERY path to its exit.  Other threads use such an object only while holding
+    the lock, so taking the lock is what makes its release wait for an operation in flight; a path
+    that skips the acquisition (an unlocked fast path) frees the object under a concurrent user.
+    Applied to the listed operations and to every library destructor that takes the lock on some path
+    (if one path needs the lock and another does not, one of them is wrong)."""
+    from engine import cfg
+    n = 0
+    cands = {}
+    for qname in ATOMIC_OPS:
+        for fn in tu.find(qname):
+            cands[fn.id] = fn
+    for fn in tu.fns.values():
+        if fn.has_body and fn.is_lib and fn.kind == "dtor" and la.flow(fn).lockvars:
+            cands[fn.id] = fn
+    for fn in cands.values():
+        fl = la.flow(fn)
+        lock_blocks = set()
+        for bid, b in fn.blocks.items():
+            for e in b["ev"]:
+                if e["e"] == "decl" and e["var"] in fl.lockvars:
+                    lock_blocks.add(bid)
+        if not lock_blocks:
+            if fn.qe in ATOMIC_OPS:
+                ctx.ob("C12.g", fn.qe, False, pattern=fn.pat, unit=tu.name, inst=fn.q,
+                       detail="%s (%s) never acquires the global lock" % (fn.qe, ATOMIC_OPS[fn.qe]))
+                n += 1
+            continue
+        n += 1
+        skip = fn.exit in cfg.reach(fn, fn.entry, avoid_blocks=lock_blocks)
+        # an event before the acquisition in the same block is fine; a path around the block is not
+        ctx.ob("C12.g", fn.qe, not skip, pattern=fn.pat, unit=tu.name, inst=fn.q,
+               detail="" if not skip else "%s has a path to its exit that does not acquire the global lock "
+               "(unlocked fast path): its effects, and for a destructor the release of the object, are no longer "
+               "ordered after an operation another thread has in flight on the same object" % fn.qe)
+    return n
+
+
 def c12f(ctx, tu):
     """Builder pointer fields are written only by set_sequence / member initialisers."""
     n = 0
@@ -655,6 +694,7 @@ def run(ctx):
         c12d(ctx, tu)
         c12e(ctx, tu, la)
         c12f(ctx, tu)
+        c12g(ctx, tu, la)
         locks |= la.lock_sites
         units.append({"unit": tu.name, "functions": len(tu.fns), "contexts_reached": len(la.reached),
                       "user_roots": len(la.roots()), "lock_acquisition_sites": len(la.lock_sites),
